@@ -711,11 +711,11 @@ func (rw *rewriter) atomicIn(e ast.Expr) int {
 					n++
 				}
 			}
-			// the methods of sync.Map are atomic operations on the map (Range, whose order is not specified, is refused below)
+			// the methods of sync.Map are atomic operations on the map (Range is a call of its own: SyncMapRange)
 			if o := rw.info.Uses[id]; o != nil && o.Pkg() != nil && o.Pkg().Path() == "sync" {
 				if fn, isFunc := o.(*types.Func); isFunc {
 					if sig, ok := fn.Type().(*types.Signature); ok && sig.Recv() != nil {
-						if ok, _ := namedIs(sig.Recv().Type(), "sync", "Map"); ok {
+						if ok, _ := namedIs(sig.Recv().Type(), "sync", "Map"); ok && fn.Name() != "Range" {
 							n++
 						}
 					}
@@ -1406,11 +1406,21 @@ func (rw *rewriter) callExpr(n *ast.CallExpr) ast.Expr {
 				rw.st.Mutex++
 				return rw.call("OnceDo", rw.addr(se.X, ptr), rw.expr(n.Args[0]))
 			}
-			if ok, _ := namedIs(recvT, "sync", "Map"); ok && se.Sel.Name == "Range" {
-				fatal("%s: sync.Map.Range is not modelled (its order is not specified)", rw.pos(n))
+			if ok, _ := namedIs(recvT, "sync", "Locker"); ok && (se.Sel.Name == "Lock" || se.Sel.Name == "Unlock") {
+				// c.L.Lock() of a condition variable, a Locker handed around: dispatched on the dynamic type
+				rw.st.Mutex++
+				return rw.call("Locker"+se.Sel.Name, rw.expr(se.X))
 			}
-			if ok, _ := namedIs(recvT, "sync", "Cond"); ok {
-				fatal("%s: sync.Cond is not modelled", rw.pos(n))
+			if ok, ptr := namedIs(recvT, "sync", "Map"); ok && se.Sel.Name == "Range" {
+				rw.st.MapRange++
+				return rw.call("SyncMapRange", rw.addr(se.X, ptr), rw.expr(n.Args[0]))
+			}
+			if ok, ptr := namedIs(recvT, "sync", "Cond"); ok {
+				switch se.Sel.Name {
+				case "Wait", "Signal", "Broadcast":
+					rw.st.Mutex++
+					return rw.call("Cond"+se.Sel.Name, rw.addr(se.X, ptr))
+				}
 			}
 		}
 	}
